@@ -303,13 +303,40 @@ def plan(inp, forms, with_short=True):
     return runs
 
 
+def write_input(wd, inp):
+    d = os.path.join(wd, "in%d" % inp["idx"]); os.makedirs(d)
+    for name, content in inp["files"].items():
+        with open(os.path.join(d, name), "wb") as f:
+            f.write(content if isinstance(content, bytes) else content.encode("utf8"))
+    return d
+
+
+def prescreen(res, wd, xalan, inputs):
+    """C05 compares forms; an input on which the plain command-line run (file, stylesheet file, stdout) does not even terminate
+    says nothing about forms and would only block the in-process forms: such inputs are set aside and listed in the evidence.
+    (Seen on the unchanged tree: an unbalanced XalanNamespacesStack::popContext after an ignored xsl:copy makes
+    XSLTEngineImpl::reset() spin in XalanNamespacesStack::clear() AFTER the complete result has been written.)"""
+    from concurrent.futures import ThreadPoolExecutor
+
+    def one(inp):
+        d = os.path.join(wd, "in%d" % inp["idx"])
+        try:
+            subprocess.run([xalan, os.path.join(d, "in.xml"), os.path.join(d, "main.xsl")], stdout=subprocess.DEVNULL, stderr=subprocess.DEVNULL, timeout=30)
+            return True
+        except subprocess.TimeoutExpired:
+            return False
+    with ThreadPoolExecutor(max_workers=vlib.NCPU) as ex:
+        oks = list(ex.map(one, inputs))
+    dropped = [inp["name"] for inp, ok in zip(inputs, oks) if not ok]
+    if dropped:
+        res.notes["inputs_set_aside_reference_run_does_not_terminate"] = dropped
+    return [inp for inp, ok in zip(inputs, oks) if ok]
+
+
 def run_harness(res, wd, exe, xalan, inputs, forms):
     cases = []
     for inp in inputs:
-        d = os.path.join(wd, "in%d" % inp["idx"]); os.makedirs(d)
-        for name, content in inp["files"].items():
-            with open(os.path.join(d, name), "wb") as f:
-                f.write(content if isinstance(content, bytes) else content.encode("utf8"))
+        d = os.path.join(wd, "in%d" % inp["idx"])
         c = {"id": inp["idx"], "dir": d, "xml": "in.xml", "xsl": "main.xsl", "cfgs": plan(inp, forms)}
         if inp.get("sparam"):
             c["sparam"] = inp["sparam"]
@@ -326,7 +353,7 @@ def run_harness(res, wd, exe, xalan, inputs, forms):
     raw = {}
     for ch, tp, p in procs:
         try:
-            _, err = p.communicate(timeout=3000)
+            _, err = p.communicate(timeout=600 + 0.3 * sum(len(c["cfgs"]) for c in ch))      # normal: a few ms per run
         except subprocess.TimeoutExpired:
             p.kill(); _, err = p.communicate(); err = b"TIMEOUT " + (err or b"")
         evs = [e for e in read_trace(tp) if e.get("e") == "Run"]
@@ -383,12 +410,15 @@ def run(res, tier, seed):
     res.notes["quick_subset"] = [key(c) for c in qsub]
     forms = qsub if quick else sup
     # ---- GEN
-    inputs = c05_corpus.make_corpus(rng, 14 if quick else 600)
+    inputs = c05_corpus.make_corpus(rng, 14 if quick else 1200)
     for i, inp in enumerate(inputs):
         inp["idx"] = i
     # ---- RUN
     exe = vlib.build_harness("c05")
     xalan = xalan_exe(os.path.dirname(exe))
+    for inp in inputs:
+        write_input(wd, inp)
+    inputs = prescreen(res, wd, xalan, inputs)
     cases, raw = run_harness(res, wd, exe, xalan, inputs, forms)
     events, execs = [], []
     for inp, c in zip(inputs, cases):
